@@ -30,4 +30,16 @@ PROPS = {
         "level_note": "Full. Bit-63 pointer tagging is modelled by contract (value = pointer + flag), so pointers with bit 63 set are outside the model; Go maps are modelled as total functions; adding a node twice (cycle) is excluded by the freshness hypothesis (refuted variant proved).",
         "assumptions": ["pointers fit in 63 bits", "EqualKeyFn compares the key stored behind the pointer with the lookup key", "nodes added to a NodeList are not already in it"],
     },
+    "C09": {
+        "runs": [run("mvcc-iter", 500, 8000)],
+        "level_text": "Theorems for every comparator with the total-preorder laws, every store satisfying the store invariant (any invisible older/newer versions present), every snapshot number: Seek lands on the first visible version with key >= probe, SeekFirst on the first visible, Next on the next visible, Refresh does not move the iterator, a scan with any refresh rate = the view, the view is strictly increasing. The iterator model is tied to iterator.go / skiplist/iterator.go by replaying generated iterator scripts (Seek present/absent/below/above, Next, Refresh, SetRefreshRate) on real snapshots and evaluating the model on the same history.",
+        "level_note": "Full for a store that does not change during the script (moving store: C15/C01). Model = quiescent skiplist as a sorted list; the store invariant is proved to hold in every reachable state of the MVCC model (C02).",
+        "assumptions": ["the store is not modified while the iterator script runs", "comparator is a total preorder (laws proved for bytes.Compare and CompareKV models)"],
+    },
+    "C10": {
+        "runs": [run("mvcc-visit", 400, 6000)],
+        "level_text": "Theorem visitor_partition: for every comparator (laws), store (invariant), snapshot, refresh rate and ANY pivot list, the shard outputs concatenated in shard order equal the snapshot's view, which is strictly increasing (so: each item once, ascending within a shard, shard i before shard i+1). Tied to nitro.go Visitor by feeding the real pivots (GetRangeSplitItems) to the model and comparing per-shard delivery sequences; callback-error runs are checked by the oracle (error returned, termination under a watchdog).",
+        "level_note": "Full for a quiescent store; concurrent mutation during the visit rests on C15. Worker-pool termination is observed (20 s watchdog), the channel/WaitGroup plumbing is not modelled.",
+        "assumptions": ["the store is quiescent during the visit", "Go channels / sync.WaitGroup behave as documented"],
+    },
 }
